@@ -1,12 +1,14 @@
 #!/usr/bin/env python3
 """Regenerate MANIFEST.json from checks/*.json (claimed) and properties.jsonl (the rest -> not_applicable)."""
-import json, os
+import json, os, sys
 ROOT = os.path.dirname(os.path.dirname(os.path.abspath(__file__)))
+sys.path.insert(0, os.path.join(ROOT, "lib"))
+import vcheck as V
 props = [json.loads(l) for l in open(os.path.join(ROOT, "properties.jsonl"))]
 cfgs = {}
 for f in sorted(os.listdir(os.path.join(ROOT, "checks"))):
     if f.endswith(".json"):
-        c = json.load(open(os.path.join(ROOT, "checks", f)))
+        c = V.load_cfg(f[:-5])
         cfgs[c["property"]] = c
 na_reasons = {}
 p = os.path.join(ROOT, "checks", "not_applicable.txt")
